@@ -24,10 +24,12 @@ FORBIDDEN = re.compile(r"\b(Admitted|admit|give_up|Axiom|Axioms|Parameter|Parame
                        r"|Unset\s+Guard|bypass_check|type-in-type|impredicative-set|Admit\s+Obligations")
 
 
-def _lock():
+def _lock(shared=False):
+    """exclusive while the development is (re)built; shared while a Props file is compiled against the .vo files, so
+    that checks running in parallel never read a half-rebuilt tree"""
     os.makedirs(WORK, exist_ok=True)
-    f = open(os.path.join(WORK, "build.lock"), "w")
-    fcntl.flock(f, fcntl.LOCK_EX)
+    f = open(os.path.join(WORK, "build.lock"), "a")
+    fcntl.flock(f, fcntl.LOCK_SH if shared else fcntl.LOCK_EX)
     return f
 
 
@@ -209,7 +211,11 @@ def _check_props(pid):
     cmd = ["timeout", "900", "coqc", "-q", "-Q", "theories", "OSV", "-o", outvo, os.path.relpath(path, COQ)]
     res["cmd"] = "cd coq && make -j16 && " + " ".join(cmd[2:])
     t0 = time.time()
-    p = subprocess.run(cmd, cwd=COQ, capture_output=True, text=True)
+    lk = _lock(shared=True)
+    try:
+        p = subprocess.run(cmd, cwd=COQ, capture_output=True, text=True)
+    finally:
+        lk.close()
     shutil.rmtree(outdir, ignore_errors=True)
     res["log"] = (p.stdout + p.stderr)[-6000:]
     res["coqc_s"] = round(time.time() - t0, 2)
